@@ -5,6 +5,7 @@ from __future__ import annotations
 
 import asyncio
 import random
+import re
 import socket
 from dataclasses import dataclass, field
 from typing import Any, Callable
@@ -161,6 +162,7 @@ class Conn:
         self.loop = asyncio.get_event_loop()
         self.reader = asyncio.StreamReader(limit=limit)
         self.writer = MemWriter(self)
+        self._tls_hold: list[bytes] | None = None
         Conn._next_fd += 1
         self.sock = _Socket(Conn._next_fd, socket.AF_INET)
         self.peername = peer
@@ -234,12 +236,43 @@ class Conn:
         self._tagn += 1
         return b'%s%d.%d' % (prefix, self.cid, self._tagn)
 
+    _STARTTLS = re.compile(rb'(?i)(?:^|\r\n)(?:[^ \r\n]+ )?STARTTLS\r?\n\Z')
+
     def feed(self, data: bytes) -> None:
         step = getattr(self.loop, 'steps', 0)
         self.sent += data
         self.transcript.append((step, 'C', data))
-        if not self.eof_sent:
-            self.reader.feed_data(data)
+        if self.eof_sent:
+            return
+        if self._tls_hold is not None:
+            # a TLS handshake is (possibly) under way, see below
+            self._tls_hold.append(data)
+            return
+        self.reader.feed_data(data)
+        if self._STARTTLS.search(data):
+            # A client that ends a segment with STARTTLS waits for the
+            # handshake.  The in-memory handshake is a no-op, but what the
+            # client sends next cannot reach the server's *plaintext* reader
+            # before the server has called start_tls() - in reality it would
+            # be the ClientHello, consumed by the TLS layer.  So it is held
+            # until start_tls() has been called or the server is reading
+            # again (STARTTLS refused).  Bytes sent in the SAME segment
+            # behind STARTTLS are not held: that is the injection attack.
+            self._tls_hold = []
+            self.loop.create_task(self._release_after_handshake(
+                self.tls_started))
+
+    async def _release_after_handshake(self, before: int) -> None:
+        for _ in range(10_000):
+            await asyncio.sleep(0)
+            reading = getattr(self.reader, '_waiter', None) is not None \
+                and not getattr(self.reader, '_buffer', b'')
+            if self.tls_started > before or reading or self.task_done:
+                break
+        held, self._tls_hold = self._tls_hold or [], None
+        for data in held:
+            if not self.eof_sent:
+                self.reader.feed_data(data)
 
     def feed_eof(self) -> None:
         if not self.eof_sent:
